@@ -85,6 +85,13 @@ def xv(driver, timeout=600, env=None, **kw):
     except subprocess.TimeoutExpired:
         raise ToolError("xv %s timed out after %ss" % (driver, timeout))
     if p.returncode != 0:
+        # a driver that records its trace incrementally (<out>.partial) and dies inside the code under test (abort on
+        # allocation failure, stack overflow, ...): the death is data, the partial trace is judged
+        part = str(kw.get("out", "")) + ".partial"
+        if p.returncode < 0 and kw.get("out") and os.path.exists(part) and os.path.getsize(part) > 0:
+            tail = [l for l in (p.stderr or "").splitlines() if l.strip()]
+            what = next((l for l in tail if "memory allocation" in l or "overflow" in l or "panicked" in l), tail[0] if tail else "")
+            return {"died": p.returncode, "partial": part, "what": what[:300]}
         sys.stdout.write((p.stderr or "")[-4000:])
         raise ToolError("xv %s failed rc=%d" % (driver, p.returncode))
     last = [l for l in p.stdout.splitlines() if l.strip()]
